@@ -7,5 +7,6 @@ CONSTANTS
   BinAPats <- MC_ThoroughBinAPats
   BinBPats <- MC_ThoroughBinBPats
   Scalars <- MC_Scalars
+  TinyBMaxN = 4
   TwoFull = TRUE
 INVARIANTS TypeOK Contract Abstraction Emit
